@@ -396,8 +396,12 @@ pub fn run(run: &mut Run) {
         let c = Case { dist: true, msg_lens: vec![3], fill: 1, chunks: vec![5], pending: vec![], eof_at: None, tail_declared: Some(CAP as u32), tail_body: 4 };
         run.enumerate("at-cap", vec![c].into_iter(), oracle);
     }
+    if run.tier == crate::engine::Tier::Thorough {
+        // coverage-guided byte fuzzing of the same oracle (libFuzzer, structure-aware through fuzzde); see fuzzbridge.rs
+        crate::fuzzbridge::campaign(run, "c05", 3_000_000, 400);
+    }
 }
 
 pub fn replays() -> Vec<ReplayEntry> {
-    vec![replay_entry("all-chunkings", oracle), replay_entry("random-streams", oracle), replay_entry("at-cap", oracle)]
+    vec![replay_entry("fuzz:c05", crate::fuzzbridge::eval_input), replay_entry("all-chunkings", oracle), replay_entry("random-streams", oracle), replay_entry("at-cap", oracle)]
 }
